@@ -150,7 +150,7 @@ def one_case(ctx: Ctx, rng, cidx: int, stores: dict) -> None:
                 scr = any(list(a.params) != list(b.params) for a, b in zip(raw, trials))
             except Exception:  # noqa: BLE001
                 pass
-        return {"sampler_family": fam, "pruner": pruner_name, "config": config, "backend_family": backends.family_of(kind), "via_grpc": kind.startswith("grpc:"),
+        return {"sampler_family": fam, "sampler": sampler_name, "pruner": pruner_name, "config": config, "backend_family": backends.family_of(kind), "via_grpc": kind.startswith("grpc:"),
                 "trial_ids_equal_numbers": ids_eq, "grpc_param_order_scrambled": scr}
 
     def fresh_study(kind: str, pre: bool):
@@ -233,7 +233,7 @@ def one_case(ctx: Ctx, rng, cidx: int, stores: dict) -> None:
             tr, cerr = json.loads(line[-1][5:])
             tr = [{k: ([tuple(x) for x in v] if isinstance(v, list) and k in ("params", "dists", "inter") else v) for k, v in t.items()} for t in tr]
             ref_n = [{k: ([tuple(x) for x in v] if isinstance(v, list) and k in ("params", "dists", "inter") else v) for k, v in t.items()} for t in json.loads(json.dumps(ref))]
-            judge(ctx, ref_n, ref_err, tr, cerr, {"sampler_family": fam, "pruner": pruner_name, "config": "hashseed", "backend_family": "inmemory", "via_grpc": False,
+            judge(ctx, ref_n, ref_err, tr, cerr, {"sampler_family": fam, "sampler": sampler_name, "pruner": pruner_name, "config": "hashseed", "backend_family": "inmemory", "via_grpc": False,
                                                   "trial_ids_equal_numbers": True, "grpc_param_order_scrambled": False}, {**case0, "hashseed": env["PYTHONHASHSEED"]})
         except Exception as e:  # noqa: BLE001
             ctx.inconclusive_because(f"hash-seed child failed: {type(e).__name__}: {str(e)[:200]}")
